@@ -67,8 +67,8 @@ func main() {
 		Assumptions: []string{
 			"serial engine only (kit/sim assemblies); the monitor is attached after the assembly is built exactly as simulation.Builder does (RegisterEngine, RegisterComponent per component, StartServer)",
 			"the race detector decides 'concurrently': a report is attributed to the property when one access stack passes through a monitoring2.(*Monitor) HTTP handler and the other through SerialEngine.Run/RunUntil",
-			"outcome = per-driver response log hash (order, kind, data, simulated time), request/response counts, driver data-check errors and the engine end time; when tick requests were issued only completion, " +
-				"counts and data correctness are compared (an injected tick is an input: it may legitimately shift timing and the drivers' idle draws)",
+			"outcome = per-driver response log hash (order, kind, data, simulated time), request/response counts, driver data-check errors and the engine end time; when tick requests were issued only completion " +
+				"and request counts are compared (an injected tick is an input: it may legitimately shift timing and the drivers' idle draws, hence the request stream)",
 			"/api/now, /api/run, profiling, tracing and static endpoints are outside the statement's list; /api/now is exercised in its own batch and reported under its own key",
 			"a request or a run that never returns is caught by the watchdog only (inconclusive)",
 		},
@@ -86,7 +86,7 @@ func main() {
 }
 
 func mustObserve() []string {
-	out := []string{"runs_compared_with_unmonitored_run(full_outcome)", "runs_compared_with_unmonitored_run(completion_and_data_only)", "events_handled_between_consecutive_requests", "requests_answered_under_a_user_pause"}
+	out := []string{"runs_compared_with_unmonitored_run(full_outcome)", "runs_compared_with_unmonitored_run(completion_only)", "events_handled_between_consecutive_requests", "requests_answered_under_a_user_pause"}
 	for _, k := range []string{"pause", "continue", "state", "tick", "component", "field", "buffers", "progress"} {
 		out = append(out, "requests_while_run_active_"+k)
 	}
@@ -94,7 +94,7 @@ func mustObserve() []string {
 }
 
 func plan(tier string, seed int64) []kit.Batch {
-	n, nreq, maxHTTP, reps := 5, 400, 150, 1
+	n, nreq, maxHTTP, reps := 4, 400, 150, 1
 	if tier == "thorough" {
 		n, nreq, maxHTTP, reps = 25, 1000, 500, 2
 	}
@@ -280,7 +280,9 @@ func (a *assembly) outcome() outcome {
 func (o outcome) weak() string {
 	var sb strings.Builder
 	for _, d := range o.Drivers {
-		fmt.Fprintf(&sb, "[issued=%d completed=%d done=%v data_errors=%d]", d.Issued, d.Completed, d.Done, d.ErrCount)
+		// Data-check errors are not compared here: a shifted request stream may
+		// or may not run into a memory-hierarchy defect (C16's business).
+		fmt.Fprintf(&sb, "[issued=%d completed=%d done=%v]", d.Issued, d.Completed, d.Done)
 	}
 	return sb.String()
 }
@@ -496,10 +498,10 @@ func run(b kit.Batch, r *kit.R) {
 		if simPanic == "" {
 			if ticked {
 				if got.weak() != want.weak() {
-					c.Fail("c40/outcome-differs-from-unmonitored-run/"+prm.Profile, map[string]any{"compared": "completion, counts, data errors (tick requests were issued)",
+					c.Fail("c40/outcome-differs-from-unmonitored-run/"+prm.Profile, map[string]any{"compared": "completion and request counts (tick requests were issued)",
 						"monitored": got, "unmonitored": want, "cfg": cfg})
 				}
-				r.Count("runs_compared_with_unmonitored_run(completion_and_data_only)", 1)
+				r.Count("runs_compared_with_unmonitored_run(completion_only)", 1)
 			} else {
 				if got.full() != want.full() {
 					c.Fail("c40/outcome-differs-from-unmonitored-run/"+prm.Profile, map[string]any{"compared": "full outcome", "monitored": got, "unmonitored": want, "cfg": cfg})
